@@ -194,6 +194,17 @@ Theorem C18_aggregate_relabel_rational : forall tr tr' : traj (F:=Qc),
 Proof. exact aggregate_relabel_Qc. Qed.
 Print Assumptions C18_aggregate_relabel_rational.
 
+(* energy_cost = sum_t price_t * aggregate power_t * T / 60 and demand_charge = rate * max_t aggregate power_t, for
+   the price series / demand-charge rate of the tariff that applies (which tariff applies -- the explicit argument if
+   given, otherwise the simulator's own -- is checked against the real functions by the correspondence; the tariff
+   lookup itself is C17) *)
+Theorem C18_costs_rational : forall (tr : traj (F:=Qc)) prices dc,
+  Forall (fun row => length row = t_width tr) (t_rates tr) ->
+  energy_cost QcO QcA tr prices = energy_cost_spec QcO tr prices
+  /\ demand_charge QcO QcA tr dc = demand_charge_spec QcO tr dc.
+Proof. exact costs_Qc. Qed.
+Print Assumptions C18_costs_rational.
+
 Theorem C18_constraint_currents_rational : forall (tr : traj (F:=Qc)) flag ids,
   wf tr -> NoDup (t_cindex tr) ->
   map fst (constraint_currents QcO QcA tr flag ids) = filter (requested ids) (t_cindex tr)
